@@ -15,7 +15,8 @@ A statement is accepted exactly when
   R-table        the FROM table exists;
   R-column       every column name resolves in the table of the (sub-)select it occurs in;
   R-function     every function call has an overload for its operand types;
-  R-operator     every operator has an overload for its operand types;
+  R-operator     every operator has an overload for its operand types (R-operator-in: the right operand of
+                 IN / NOT IN is a collection -- set, list, dict -- or a sub-select);
   R-attribute    ``x.name``: x has a structured type that has the attribute;
   R-subscript    ``x['k']``: x is subscriptable (dict or a subclass);
   R-where-agg / R-from-agg / R-groupkey-agg    no aggregate in WHERE, FROM, or a grouping key
@@ -284,20 +285,32 @@ def resolve_between(overloads, ts):
 # ---------------------------------------------------------------------------------------------------
 # AST helpers (own walkers: dataclass fields, never the `walk` of the implementation)
 
+_FIELDS = {}
+
+
+def _field_names(cls):
+    names = _FIELDS.get(cls)
+    if names is None:
+        names = _FIELDS[cls] = tuple(f.name for f in dataclasses.fields(cls) if f.name != 'parseinfo')
+    return names
+
+
 def fields(node):
-    for f in dataclasses.fields(node):
-        if f.name != 'parseinfo':
-            yield f.name, getattr(node, f.name)
+    for name in _field_names(type(node)):
+        yield name, getattr(node, name)
 
 
 def subnodes(node):
-    for _, v in fields(node):
+    out = []
+    for name in _field_names(type(node)):
+        v = getattr(node, name)
         if isinstance(v, ast.Node):
-            yield v
-        elif isinstance(v, list):
+            out.append(v)
+        elif isinstance(v, list):         # TatSu hands out list subclasses
             for x in v:
                 if isinstance(x, ast.Node):
-                    yield x
+                    out.append(x)
+    return out
 
 
 def walk_all(node):
@@ -472,7 +485,7 @@ class Checker:
         if rt in (object, NoneType):
             return self.ask('in-untyped')
         a, b = resolve_call(operator_overloads(type(node)), [lt, rt])
-        return self._decide(a, b, 'R-operator', f'{type(node).__name__}[{_name(lt)},{_name(rt)}]', False)
+        return self._decide(a, b, 'R-operator-in', f'{type(node).__name__}[{_name(lt)},{_name(rt)}]', False)
 
     def _function(self, node, table):
         name = node.fname
@@ -793,7 +806,7 @@ def check_expression(node, table, env=None, params=None):
 # ---------------------------------------------------------------------------------------------------
 # signature snapshot (lower bound)
 
-_SPECIAL = {'beanquery.types:Any': _bt.Any, 'beanquery.types:Asterisk': _bt.Asterisk}
+_SPECIAL = {'beanquery.types:Any': _bt.Any, 'beanquery.types:Asterisk': _bt.Asterisk, 'builtins:NoneType': NoneType}
 
 
 def type_key(t):
